@@ -150,6 +150,25 @@ def _dec(ch):
         return None
 
 
+def code_constants():
+    common.setup_repo_imports()
+    from recognizers_number.number.constants import Constants
+    from recognizers_number.number.parsers import BaseNumberParser
+    tup = Decimal(0.1).as_tuple()
+    prec = None
+    for cell in (BaseNumberParser._get_digital_value.__closure__ or ()):
+        try:
+            v = cell.cell_contents
+        except ValueError:
+            continue
+        if isinstance(v, dict) and 'prec' in v:
+            prec = v['prec']
+    if prec is None:
+        raise ValueError('_get_digital_value is no longer wrapped by @precision(prec=...)')
+    return {'nbsp': ord(Constants.NO_BREAK_SPACE), 'p1c': int(''.join(map(str, tup.digits))), 'p1e': tup.exponent,
+            'prec': int(prec)}
+
+
 def generate():
     data = collect()
     files = []
@@ -206,6 +225,14 @@ def generate():
           'base is `some`, and raises InvalidOperation when it is `none` (superscripts, circled digits ...). -/\n')
     t += 'def table : Array (Nat × Nat × Option Nat) := #%s\n\n' % lean_list(
         ['(%d, %d, %s)' % (a, b, 'none' if c is None else 'some %d' % c) for a, b, c in rows], per_line=4)
+    # constants of the code that the model uses as literals: regenerated here and tied by `constants_regenerated`
+    consts = code_constants()
+    t += '/-- recognizers_number.number.constants.Constants.NO_BREAK_SPACE -/\n'
+    t += 'def noBreakSpace : Nat := %d\n' % consts['nbsp']
+    t += '/-- `Decimal(0.1).as_tuple()` of the running interpreter: coefficient and exponent -/\n'
+    t += 'def pointOneCoeff : Nat := %d\ndef pointOneExp : Int := %d\n' % (consts['p1c'], consts['p1e'])
+    t += '/-- the `prec` argument of the `@precision(...)` decorator on BaseNumberParser._get_digital_value -/\n'
+    t += 'def digitalValuePrec : Nat := %d\n\n' % consts['prec']
     t += 'end RTV.Gen.NumDigits\n'
     files.append((os.path.join(GEN, 'NumDigits.lean'), t))
     return files
